@@ -80,6 +80,7 @@ def check(run):
     _r1(run, results, gmod, smod)
     _r2(run, results)
     _r3(run, results, classes)
+    _r3c(run, prog, classes)
     _r45(run, gmod, smod)
     _r6(run, prog)
     _r7(run, classes)
@@ -439,6 +440,54 @@ def _r7(run, classes):
         run.undecided('C02-R7', 'MultipletLineShape.__init__', 'conversion not recognised')
 
 
+def _r3c(run, prog, classes):
+    """The pi / sigma shares are stated in terms of the angle between the field and the line of sight: the quantity squared is the cosine,
+    B . d / (|B| |d|) -- the field divided by its own length, the viewing vector normalised (callers pass ray directions of any length
+    through the public add_line)."""
+    run.describe('C02-R3c', 'Zeeman models: cos^2 is (B . d_hat / |B|)^2 with the viewing vector normalised and |B| the length of the same field vector')
+    from ..inline import flatten, class_lookup, module_lookup, resolver
+    for cname in ('ZeemanTriplet', 'ParametrisedZeemanTriplet', 'ZeemanMultiplet'):
+        ci = classes[cname]
+        fn0 = ci.methods.get('add_line')
+        try:
+            fn = flatten(flatten(fn0, class_lookup(prog, ci)), module_lookup(ci.mod, public=True, prog=prog))
+        except Exception:
+            fn = fn0
+        params = [a.arg for a in fn.args.args]
+        dname = params[3] if len(params) > 3 else 'direction'
+        res = resolver(fn)
+        dots = [c for c in ast.walk(fn) if isinstance(c, ast.Call) and isinstance(c.func, ast.Attribute) and c.func.attr == 'dot' and len(c.args) == 1]
+        # the dot products between the magnetic field and the viewing vector (either receiver)
+        K = '%s|%s|add_line|cos' % (ci.mod.name, cname)
+        seen = 0
+        for c in dots:
+            recv, arg = res(c.func.value), res(c.args[0])
+            both = [norm(recv), norm(arg)]
+            if not any(dname in b_.replace('.normalise()', '').split('.')[0:1] or b_.startswith(dname) for b_ in both):
+                continue
+            if not any('b_field' in b_ or 'evaluate(' in b_ for b_ in both):
+                continue
+            seen += 1
+            run.subject('C02-R3c')
+            dtxt = [b_ for b_ in both if b_.startswith(dname)][0]
+            if dtxt in ('%s.normalise()' % dname,):
+                run.ok('C02-R3c', '%s cos' % cname, 'field . %s' % dtxt, sample=False)
+            elif dtxt == dname and any(isinstance(x, ast.Attribute) and x.attr in ('length', 'get_length') and norm(x.value) == dname
+                                       for x in ast.walk(fn)):
+                run.undecided('C02-R3c', '%s cos' % cname, 'the viewing vector is divided by its length elsewhere; not followed')
+            elif dtxt == dname:
+                run.fail('C02-R3c', K, ci.mod.relpath, c.lineno,
+                         "%s.add_line takes the cosine between the field and the viewing vector from %s without normalising '%s': for a "
+                         "viewing vector whose length is not 1 the pi and sigma components no longer share the radiance as 1/2 sin^2 : "
+                         "(1/2 sin^2 + cos^2)" % (cname, norm(c)[:60], dname))
+            else:
+                run.undecided('C02-R3c', '%s cos' % cname, 'viewing vector given as %s' % dtxt[:50])
+        if not seen:
+            run.subject('C02-R3c')
+            run.undecided('C02-R3c', '%s cos' % cname, 'no dot product between the field and the viewing vector found')
+    run.floor('C02-R3c', 3)
+
+
 def _r6(run, prog):
     """The quadrature table used for the Stark profile is rebuilt whenever its order range changes."""
     from ..effects import Effects, self_chain
@@ -447,6 +496,11 @@ def _r6(run, prog):
     if not ci:
         raise AnalysisError('anchored class vanished: GaussianQuadrature')
     ci = ci[0]
+    try:
+        # a write-and-rebuild helper shared by the setters is read where it is called
+        prog.normalise_class(ci, keep=('_build_cache',), propagate=False)
+    except Exception:
+        pass
     eff = Effects(prog)
     builder = ci.methods.get('_build_cache')
     if builder is None:
